@@ -61,6 +61,26 @@ CHECKS = {
             "rebuilt circuit and a brute-force evaluation over the raw moment list.",
             "Histories <=30 calls, <=5 qubits; insert_into_range / insert_at_frontier / concat_ragged ordered by qubit conflicts "
             "only (documented as geometric).", "DESIGN.md 5/C05"),
+    "C06": ("exploration", "generic post-call monitor on every shipped transformer and primitive (registry checked against the public names) + reference interpreter on the input's abstract program",
+            "53 registry rows (every public transformer of cirq.transformers, gauge_compiling, cirq_google.transformers and the "
+            "transformer primitives; a name without a row makes the run inconclusive). Input meaning comes from the generator's "
+            "abstract program through the reference interpreter; the output circuit is lowered op by op through cirq.unitary and "
+            "numpy (unitary relation, up to global phase) or observed through the scripted-seed explorer (exact record "
+            "distribution, averaged final state). Each transformer is held to the relation its docstring states (U~, D=, rho=, "
+            "gauge for every seed and sweep point, sweep, prefix+suffix, rename); for every call additionally: input circuit "
+            "unmodified, operations tagged in tags_to_ignore untouched and not merged across, sub-circuit bodies untouched with "
+            "deep=False, output moments well-formed; pipelines of 2-3 transformers.",
+            "Per-operation protocols and the simulators are trusted here (policed by C03/C04/C02); <=5 qubits.", "DESIGN.md 5/C06"),
+    "C07": ("exploration", "runtime monitor on optimize_for_target_gateset, RouteCQC and device validators + independent membership tables, numpy permutation oracle and harness-built device specifications",
+            "20 gateset configurations (CZ, sqrt-iSWAP, Sycamore, Google CZ incl. eject_paulis with Pauli families, IonQ API and "
+            "native, AQT, Pasqal): every output operation must be accepted by the gateset AND by an independent membership table "
+            "written from its docstring, the output must equal the catalogue product of the input up to global phase, documented "
+            "count bounds and the keep-old-if-not-worse rule hold, ignored/tagged operations pass through, inputs are not mutated. "
+            "Routing: every multi-qubit operation on a device-graph edge, initial map injective, routed unitary equals the "
+            "relabelled input up to the reported swap permutation (numpy permutation matrices), inserted ops are (tagged) SWAPs. "
+            "Devices: accept/reject equals the predicate known by construction from the harness's own specification.",
+            "Input side from catalogue matrices, output side through cirq.unitary(op); tolerance 1e-6 (1e-5 for IonQ native, "
+            "sqrt-iSWAP and 3-qubit paths).", "DESIGN.md 5/C07"),
     "C08": ("exploration", "runtime monitor on pow/inverse/controlled/phase_by and the predicates + catalogue eigen-definitions as oracle",
             "g**t is compared with the eigen-decomposition definition (catalogue projectors at exponent e*t) for every EigenGate "
             "family incl. qudits, with closed forms / integer matrix powers / root checks for the others; g.controlled(...) and "
@@ -172,6 +192,19 @@ CHECKS = {
             "gate-count bounds, documented rejections.",
             "Reconstruction threshold max(100*atol, 1e-5) (10x band only counted); returned operations lowered through "
             "cirq.unitary(op); tabulation-based synthesis not covered.", "DESIGN.md 5/C15"),
+    "C20": ("fault_enumeration", "offline history checkers over client-boundary event logs; the fake sampler / model Quantum Engine server is the scheduler and fault injector",
+            "Collector layer (duet): a controller task in the same scheduler completes or fails parked sampler futures in "
+            "enumerated (all completion orders x batchings x failure positions for <=5 jobs, concurrency 1-3) or seeded "
+            "orders; the recorded history is checked for exactly-once delivery of each job's own result, conservation, "
+            "concurrency and sample-budget bounds, progress (next_job re-asked when capacity remains), clean stop, first error "
+            "raised once; PauliSumCollector and run_batch(_async) ordering likewise. Stream layer: StreamManager runs against a "
+            "sequential model of the Quantum Engine (program/job ledger, run counts) on a real asyncio executor thread with a "
+            "server-side barrier; all fault sequences of length <=3 over {break-before, break-after, already-exists, "
+            "does-not-exist, out-of-order} and seeded longer ones with cancellation and stop(); every future must resolve once "
+            "with its own job's result, retries must follow the documented table given what the server processed, message ids "
+            "unique, cancellation yields one cancel RPC, bounded progress after quiescence (K loop turns).",
+            "Real gRPC is modelled (old request iterator drains to its sentinel, as the code assumes); wall-clock watchdogs map "
+            "to INCONCLUSIVE; LINE-event yield injection not built.", "DESIGN.md 5/C20"),
 }
 
 PENDING_REASON = "check not built yet in this round; design in DESIGN.md section 5 (runtime monitor + reference oracle)"
